@@ -116,7 +116,8 @@ public:
   static std::string EscapeJSON(std::string_view s) {
     std::string r;
     r.reserve(s.size());
-    for (unsigned char c: s) {
+    for (size_t i=0; i<s.size(); ++i) {
+      unsigned char c = s[i];
       switch (c) {
       case '"': r += "\\\""; break;
       case '\\': r += "\\\\"; break;
@@ -128,8 +129,29 @@ public:
           char buf[8];
           std::snprintf(buf, sizeof buf, "\\u%04x", (unsigned)c);
           r += buf;
-        } else
+        } else if (c < 0x80) {
           r += (char)c;
+        } else {          // copy well-formed UTF-8 sequences only
+          int n = (c>=0xC2 && c<=0xDF) ? 1 : (c>=0xE0 && c<=0xEF) ? 2
+                  : (c>=0xF0 && c<=0xF4) ? 3 : 0;
+          bool ok = n>0 && i+n < s.size();
+          for (int k=1; ok && k<=n; ++k)
+            ok = ((unsigned char)s[i+k] & 0xC0) == 0x80;
+          if (ok) {
+            unsigned char c1 = s[i+1];
+            if ((c==0xE0 && c1<0xA0) || (c==0xED && c1>0x9F)
+                || (c==0xF0 && c1<0x90) || (c==0xF4 && c1>0x8F))
+              ok = false;
+          }
+          if (ok) {
+            r.append(s.substr(i, n+1));
+            i += n;
+          } else {        // e.g. a Latin-1 name: write the byte as \u00XX
+            char buf[8];
+            std::snprintf(buf, sizeof buf, "\\u%04x", (unsigned)c);
+            r += buf;
+          }
+        }
       }
     }
     return r;
